@@ -510,7 +510,7 @@ class Check:
                 # confirmed in the integer encoding and replayed, anything else leaves the obligation undecided
                 from . import bvfallback
                 t_bv = time.time()
-                m, how = bvfallback.find_counterexample(list(ctx.z.assertions()), inputs, timeout_ms=60000 if self.tier == "quick" else 240000, seed=self.seed)
+                m, how = bvfallback.find_counterexample(list(ctx.z.assertions()), inputs, timeout_ms=24000 if self.tier == "quick" else 240000, seed=self.seed)
                 self.solver_s += time.time() - t_bv
                 self.bv_fallbacks = getattr(self, "bv_fallbacks", 0) + 1
                 if m is not None:
